@@ -1,5 +1,6 @@
 """C06 — output is independent of thread scheduling and the run always ends."""
 from vlib import core, coord_common
+from vlib.props import C08 as _c08
 
 MODS = ['S4V.Props.C06', 'S4V.Props.CoordSpec']
 LEVEL_NOTE = ("Proved on the coordinator model of processing_loop (per-source FIFO channels of the capacity found in the source, wait condition, "
@@ -20,10 +21,16 @@ def check(ctx):
                                                       sigprefix='schedule')
         res2, cases2 = coord_common.stall_oracle(c, c.q(2, 12), sigprefix='schedule')
         state['cases'] = cases + cases2
-        return core.merge_oracles([res, res2])
+        # "nor stops before every source has been drained" for the worker loops of the other kinds too: accounting files
+        # whose records are out of order (the worker hands them out in time order, not file order) must print every record
+        # (generator and expectation shared with C08; its known finding F12 is not a C06 matter)
+        res3, corr3 = _c08.oracle_and_corr(c)
+        res3['failures'] = [f for f in res3['failures'] if f.get('signature') != 'fixedstruct:nul-after-each-record']
+        state['corr3'] = corr3
+        return core.merge_oracles([res, res2, res3])
 
     def extra(c):
-        return [coord_common.trace_correspondence(c, state.get('cases', []))]
+        return [coord_common.trace_correspondence(c, state.get('cases', []))] + list(state.get('corr3', []))
 
     return core.standard_check(ctx, ['Consts'], MODS, [], oracle, LEVEL_NOTE, ASSUME, extra_corr_fn=extra)
 
